@@ -550,6 +550,7 @@ def witver(ctx):
 @PROP.obligation('C05.script-built', canaries=[
     mut.replace_expr('scripts', 'Script.__init__', 'sig_n_and_m.pop() + 80', 'sig_n_and_m.pop() + 81', 'OP_n of a built script off by one'),
     mut.replace_expr('transactions', 'Output.__init__', "self.witver if self.script_type == 'p2tr' else None", "None", 'witness version not handed to the script constructor'),
+    mut.replace_expr('transactions', 'Output.__init__', "self.witver if self.script_type == 'p2tr' else None", "witver if self.script_type == 'p2tr' else None", 'the witness version handed to the script constructor is the parameter default, not the one of the address'),
     mut.replace_expr('scripts', 'Script.__init__', 'sigs_required if sigs_required else len(self.keys) if len(self.keys) else 1',
                      'min(sigs_required, max(len(self.keys), 1)) if sigs_required else len(self.keys) if len(self.keys) else 1',
                      'sigs_required clamped to the number of keys (the slot carries the witness version)'),
@@ -581,7 +582,17 @@ def script_built(ctx):
     for stype, h, wv, want in cases:
         what = '%s%s' % (stype, ' witness version %d' % wv if stype == 'p2tr' else '')
         oi = Interp(ctx.repo, 'transactions')
-        st = State(env={'self': S(SELF)}, heap={A(SELF, 'script_type'): stype, A(SELF, 'public_hash'): h, A(SELF, 'public_key'): b'', A(SELF, 'witver'): wv})
+        # the constructor's own parameters keep their declared defaults (the output is described by an address, whose witness version
+        # Output.__init__ has stored in self.witver): an expression that reads the PARAMETER `witver` sees 0
+        oenv = {'self': S(SELF)}
+        oa = out.args
+        onames = [x.arg for x in oa.args]
+        for n_, d in zip(onames[len(onames) - len(oa.defaults):], oa.defaults):
+            try:
+                oenv[n_] = ast.literal_eval(d)
+            except Exception:
+                pass
+        st = State(env=oenv, heap={A(SELF, 'script_type'): stype, A(SELF, 'public_hash'): h, A(SELF, 'public_key'): b'', A(SELF, 'witver'): wv})
         args = dict(defaults)
         args['self'] = S(('var', 'script'))
         try:
@@ -771,3 +782,72 @@ def bech32_network_filter(ctx):
         else:
             ctx.require(bool(rets) and all(g == want for g in got), q, "deserialize_address('tb1q...', network=%r) %s, expected network %s" % (net, 'is refused' if not rets else 'reports %s' % got, want), fn)
     ctx.floor(n, 5, 'network filters')
+
+
+@PROP.obligation('C05.wallet-parse-network', canaries=[
+    mut.drop_kwarg('wallets', 'Wallet.transaction_import_raw', 'parse_bytes', 'network', 'a raw transaction imported into a wallet is parsed for the default network'),
+])
+def wallet_parse_network(ctx):
+    """A wallet works on its own network (or the one of the account asked for). Where wallets.py parses raw bytes into a Transaction
+    (Transaction.parse / parse_bytes / parse_hex) it passes network= - the outputs of a parsed transaction are ready-made Output
+    objects that transaction_create takes over unchanged, so a raw transaction parsed without it reports bc1... addresses (and
+    Output.network bitcoin) inside a transaction of another network, and store() persists those addresses."""
+    mod = ctx.repo.mod('wallets')
+    n = 0
+    for name, fn in sorted(mod.functions.items()):
+        q = 'wallets:' + name
+        for c in walk_no_nested(fn):
+            if not isinstance(c, ast.Call):
+                continue
+            f = norm(c.func)
+            if not f.startswith('Transaction.parse'):
+                continue
+            n += 1
+            kw = {k.arg: k.value for k in c.keywords if k.arg}
+            ctx.saw('%s: %s(..., network=%s)' % (name, f, norm(kw['network']) if 'network' in kw else None))
+            ctx.require('network' in kw and not isinstance(kw['network'], ast.Constant), q, '`%s(...)` is called without the network the wallet method works on' % f, c,
+                        "transaction_import_raw(raw, network='testnet') reports the outputs with bitcoin addresses (bc1q...) and Output.network bitcoin inside a testnet transaction")
+    ctx.floor(n, 1, 'raw transactions parsed in wallets.py')
+
+
+@PROP.obligation('C05.key-object-script-type', canaries=[
+    mut.replace_expr('transactions', 'Output.__init__', 'script_type_default(address.witness_type, address.multisig, True)', 'script_type_default(address.witness_type, locking_script=True)', 'the multisig flag of a key object is ignored when its script type is chosen'),
+    mut.replace_expr('transactions', 'Output.__init__', 'script_type_default(address.witness_type, address.multisig, True)', "script_type_default('segwit', address.multisig, True)", 'the witness type of a key object is ignored when its script type is chosen'),
+])
+def key_object_script_type(ctx):
+    """Output(value, <HDKey object>) reports HDKey.address(), which follows the key's witness type AND its multisig flag (P2SH / P2WSH for
+    multisig keys). The statement of Output.__init__ that takes a key object over is evaluated: the locking-script type is chosen with
+    script_type_default(<the key's witness_type>, <the key's multisig flag>, locking script). Without the flag a legacy multisig key is
+    reported with its 3... address above a P2PKH script of the same hash - address and script are no longer inverse."""
+    q = 'transactions:Output.__init__'
+    fn = ctx.repo.func(q)
+    stmt = [s_ for s_ in fn.body if isinstance(s_, ast.If) and norm(s_.test) == 'isinstance(address, Address)']
+    if len(stmt) != 1:
+        ctx.undecided('Output.__init__: the statement that takes over an address / key object was not found')
+    AD = ('var', 'address')
+    seen = []
+
+    def decide(t):
+        if isinstance(t, tuple) and t and t[0] == 'isinstance' and t[1] == AD:
+            return 'HDKey' in show(t[2]) and 'Address' not in show(t[2])
+        return None
+    hooks = {'script_type_default': lambda it, a, kw, st, node: (seen.append(([term(x) if isinstance(x, S) else x for x in a], {k: (term(v) if isinstance(v, S) else v) for k, v in kw.items()}, node)), S(('var', 'chosen_type'), 'str'))[1]}
+    it = Interp(ctx.repo, 'transactions', hooks=hooks, self_cls='transactions:Output', decide=decide)
+    st = State(env={'self': S(SELF), 'address': S(AD), 'script_type': None, 'public_key': b'', 'network': 'bitcoin', 'encoding': None})
+    it.frames.append([])
+    try:
+        it.exec_block(stmt, st)
+    except AnalysisError as e:
+        ctx.undecided('Output.__init__: key-object branch not evaluable: %s' % str(e)[:100])
+    it.frames.pop()
+    if len(seen) != 1:
+        ctx.undecided('Output.__init__: script_type_default called %d times for a key object, expected 1' % len(seen))
+    a, kw, node = seen[0]
+    wt = kw.get('witness_type', a[0] if len(a) > 0 else None)
+    ms = kw.get('multisig', a[1] if len(a) > 1 else None)
+    ls = kw.get('locking_script', a[2] if len(a) > 2 else None)
+    ctx.saw('key object: script_type_default(witness_type=%s, multisig=%s, locking_script=%s)' % tuple(show(x) if isinstance(x, tuple) else x for x in (wt, ms, ls)))
+    ctx.require(wt == ('attr', AD, 'witness_type'), q, 'the script type of a key object is chosen for witness type %s, not the key\'s own' % (show(wt) if isinstance(wt, tuple) else wt), node)
+    ctx.require(ms == ('attr', AD, 'multisig'), q, 'the script type of a key object is chosen with multisig=%s, not the key\'s own flag' % (show(ms) if isinstance(ms, tuple) else ms), node,
+                "Output(v, HDKey(..., multisig=True, witness_type='legacy')) reports the P2SH address 3... and carries the P2PKH script 76a914..88ac, which parses back to 1...")
+    ctx.require(ls is True, q, 'the script type of a key object is not chosen for a LOCKING script (locking_script=%s)' % (ls,), node)
